@@ -154,3 +154,43 @@ func HarnessSelfMaps() {
 	vAssert(maps.Clone(nm) == nil, "clone-of-nil")
 	vCover("done")
 }
+
+type selfTriple struct{ a, b, c int }
+
+// HarnessSelfAppend: capacities after append follow the gc runtime's growth (so that spare capacity, and with it
+// aliasing between slices, arises in the engine exactly where it does natively).
+func HarnessSelfAppend() {
+	var ps []*int
+	caps := ""
+	for i := 0; i < 9; i++ {
+		ps = append(ps, nil)
+		caps += string([]byte{byte('a' + cap(ps))})
+	}
+	vAssert(caps == "bceeiiiiq", "pointer-slice-growth") // 1 2 4 4 8 8 8 8 16
+	var bs []byte
+	bs = append(bs, 1)
+	vAssert(cap(bs) == 8, "byte-slice-first-growth")
+	bs = append(bs, 2, 3, 4, 5, 6, 7, 8, 9)
+	vAssert(cap(bs) == 16, "byte-slice-second-growth")
+	var ss []string
+	for i := 0; i < 5; i++ {
+		ss = append(ss, "x")
+	}
+	vAssert(cap(ss) == 8, "string-slice-growth")
+	var ts []selfTriple
+	for i := 0; i < 3; i++ {
+		ts = append(ts, selfTriple{})
+	}
+	vAssert(cap(ts) == 4, "struct-slice-growth")
+	at3 := append([]*int(nil), nil, nil, nil)
+	at5 := append([]*int(nil), nil, nil, nil, nil, nil)
+	vAssert(cap(at3) == 3 && cap(at5) == 6, "append-several-at-once")
+	// aliasing through spare capacity
+	base := append([]*int(nil), nil, nil, nil) // len 3 cap 3
+	base = append(base, nil)                  // len 4 cap 6
+	x, y := 1, 2
+	a := append(base, &x)
+	b := append(base, &y)
+	vAssert(a[4] == &y && b[4] == &y, "two-appends-to-one-slice-with-spare-capacity-share-the-slot")
+	vCover("done")
+}
